@@ -35,6 +35,8 @@ def gen_cases(tier, seed):
     n = 300 if tier == "quick" else 6000
     for i in range(n):
         cases.append(dict(kind="random", seq=[rng.randrange(len(OPS)) for _ in range(rng.randint(10, 40))]))
+    # the repository's own ABM tests, run with the registry / routing / statistics contracts switched on
+    cases.append(dict(kind="repo-suite", tests=["tests/unittests", "tests/test_bptk.py"]))
     return cases
 
 
@@ -231,7 +233,37 @@ def interesting(seq):
     return False
 
 
+def run_repo_suite(case):
+    """Scratch copy of the working tree (the suite writes files next to its fixtures), pytest with -p vlib.pytest_contracts."""
+    import json
+    import os
+    import shutil
+    import subprocess
+    import sys
+    import tempfile
+    scratch = tempfile.mkdtemp(prefix="bptk_suite_contracts_")
+    log = os.path.join(scratch, "contracts.json")
+    try:
+        subprocess.run(["rsync", "-a", "--exclude", ".git", os.environ["VERIF_REPO"] + "/", scratch + "/repo/"], check=True)
+        env = dict(os.environ, PYTHONPATH=scratch + "/repo" + os.pathsep + os.environ["VERIF_HOME"], VERIF_CONTRACT_LOG=log, PYTHONWARNINGS="ignore")
+        p = subprocess.run([sys.executable, "-m", "pytest", "-q", "-p", "no:cacheprovider", "-p", "vlib.pytest_contracts", "--timeout=600"] + case["tests"],
+                           cwd=scratch + "/repo", env=env, capture_output=True, text=True, timeout=900)
+        if not os.path.exists(log):
+            return dict(verdict="inconclusive", witness=dict(msg="contract log missing", tail=p.stdout[-400:]))
+        st = json.load(open(log))
+        counters = {"suite_registry_invariant_evaluations": st["registry_invariant"],                     "suite_collect_statistics_evaluations": st["collect_statistics"], "sequences": 0}
+        if st["violations"]:
+            return dict(verdict="violated", counters=counters, mech="contract-fired-in-repo-suite", witness=dict(violations=st["violations"][:5], pytest_tail=p.stdout[-300:]))
+        if st["registry_invariant"] == 0:
+            return dict(verdict="inconclusive", counters=counters, witness=dict(msg="no contract was evaluated", tail=p.stdout[-400:]))
+        return dict(verdict="held", counters=counters, sample=dict(case=case, contract_evaluations=st))
+    finally:
+        shutil.rmtree(scratch, True)
+
+
 def run_case(case):
+    if case["kind"] == "repo-suite":
+        return run_repo_suite(case)
     counters = {}
     inv0 = _state["counts"]["inv"]
     nts = []
